@@ -14,6 +14,13 @@ package udphop
 //           The fake sockets can be scripted to FAIL: Close() of chosen sockets returns an error (the socket is
 //           closed all the same, as close(2) does), chosen Set* calls return an error.  What must hold after Close()
 //           has returned does not depend on any of that.
+//           Receivers: the fake socket logs "X k" when its ReadFrom hands the permanent closed error to socket k's
+//           receiver (the one way a recvLoop ends), the injector logs "N k q" when the whole bubble has come to rest and a
+//           datagram still sits in open socket k's buffer (nobody is in ReadFrom on it; q = len(recvQueue)).  Overflow
+//           episodes (ops "burst" / "drainq"): the reader falls behind until the queue is full and more datagrams meet
+//           it (their loss is allowed), the reader catches up, and whatever arrives afterwards on an open socket of
+//           {prev,cur} must be taken and come out of ReadFrom in order: an overflow costs the packets that met the
+//           full queue and nothing else.
 
 import (
 	"encoding/binary"
@@ -438,6 +445,9 @@ func (s *c19Sock) ReadFrom(b []byte) (int, net.Addr, error) {
 	w.cond.Broadcast()
 	for {
 		if !s.open {
+			if !s.dead {
+				w.ev("X", s.id) // the permanent error is handed to the receiver: the one way its loop ends
+			}
 			s.dead = true
 			w.cond.Broadcast()
 			return 0, nil, net.ErrClosed
@@ -642,8 +652,12 @@ func (w *c19World) inject(u *udpHopPacketConn, role string, timeout bool) {
 	defer tm.Stop()
 	for !s.dead && s.entryHanded < mine {
 		if gaveUp {
-			if len(u.recvQueue) < packetQueueSize && s.open && s.pushed-s.handed > 0 {
-				w.orphan++
+			if s.open && s.pushed-s.handed > 0 {
+				// the system is at rest and the datagram is still in the socket's buffer: nobody is in ReadFrom on it
+				w.ev("N", s.id, len(u.recvQueue))
+				if len(u.recvQueue) < packetQueueSize {
+					w.orphan++
+				}
 			}
 			return
 		}
@@ -871,6 +885,16 @@ func c19Hop(t *testing.T, c c19Case, res map[string]any) {
 					w.snap(u, false)
 				case "inject":
 					w.inject(u, op.Role, false)
+				case "burst":
+					// the reader has fallen behind: V datagrams in a row on one socket role
+					for i := int64(0); i < op.V; i++ {
+						w.inject(u, op.Role, false)
+					}
+				case "drainq":
+					// the reader catches up: read until V items are left in the queue
+					for n := len(u.recvQueue) - int(op.V); n > 0; n-- {
+						doRead()
+					}
 				case "timeout":
 					w.inject(u, op.Role, true)
 				case "dl":
@@ -1018,6 +1042,7 @@ func c19Hop(t *testing.T, c c19Case, res map[string]any) {
 		arrived := []int64{}
 		readPk := []int64{}
 		droppedFull := false
+		hadFull := false
 		qlen := 0
 		for _, e := range w.log {
 			switch e[0].(string) {
@@ -1080,11 +1105,23 @@ func c19Hop(t *testing.T, c c19Case, res map[string]any) {
 					qlen++
 				} else {
 					droppedFull = true
+					hadFull = true
 				}
 			case "T":
 				if qlen < packetQueueSize {
 					arrived = append(arrived, -2)
 					qlen++
+				}
+			case "N":
+				// (log only) at rest, a datagram sat in the buffer of a socket that the log shows open, and by the log's
+				// own count the queue had room: the receiver of that socket has stopped although the socket is open.
+				// An overflow may cost the packets that met the full queue, nothing after the reader caught up.
+				if k := e[1].(int); open[k] && qlen < packetQueueSize {
+					if hadFull {
+						fail("after the queue had been full and was read down again, a datagram on open socket " + strconv.Itoa(k) + " is never taken: its receiver stopped at the overflow")
+					} else {
+						fail("a datagram on open socket " + strconv.Itoa(k) + " is never taken although the queue has room: no receiver is reading it")
+					}
 				}
 			case "R":
 				switch e[1].(string) {
